@@ -6,7 +6,6 @@
    response pipe under an ARBITRARY oracle = list of atomic actions; one clock cycle of MagicMemoryCL is
    one such list).  W = message data width in bytes. *)
 From PV Require Import Base.Prelude Lib.Mem Lib.MemPipe Lib.MemProofs.
-(* -- *)
 Open Scope Z_scope.
 
 (* ---------------------------------------------------------------- bytes: most recent write wins *)
